@@ -574,10 +574,51 @@ func genC15Case(r *Rng) c15Case {
 			}
 		}
 	}
+	// hand-over chains that come back to an earlier admin (A->B->A, A->B->C->A), then every party tries
+	// to mint, burn and hand over
+	if len(g.denoms) > 0 && r.Chance(30, 100) {
+		sd := g.denoms[r.Intn(len(g.denoms))]
+		if sd.admin >= 0 {
+			a := sd.admin
+			parties := []int{a}
+			for _, p := range perm(r, nUsers) {
+				if p != a && len(parties) < r.Range(2, 3) {
+					parties = append(parties, p)
+				}
+			}
+			chain := append(append([]int{}, parties...), a)
+			for i := 0; i+1 < len(chain); i++ {
+				cs.Ops = append(cs.Ops, c15Op{T: "admin", Sender: chain[i], Denom: sd.denom, NewAdmin: fmt.Sprintf("@%d", chain[i+1])})
+			}
+			sd.former = append(sd.former, parties[1:]...)
+			for _, p := range perm(r, len(parties)) {
+				who := parties[p]
+				cs.Ops = append(cs.Ops, c15Op{T: "mint", Sender: who, Denom: sd.denom, Amt: int64(r.Range(1, 50))})
+				if r.Chance(1, 2) {
+					cs.Ops = append(cs.Ops, c15Op{T: "burn", Sender: who, Denom: sd.denom, Amt: int64(r.Range(1, 10)), Target: fmt.Sprintf("@%d", parties[r.Intn(len(parties))])})
+				}
+				if r.Chance(1, 2) {
+					cs.Ops = append(cs.Ops, c15Op{T: "admin", Sender: who, Denom: sd.denom, NewAdmin: fmt.Sprintf("@%d", r.Intn(nUsers))})
+				}
+			}
+		}
+	}
 	for len(cs.Ops) < n {
 		cs.Ops = append(cs.Ops, g.op())
 	}
 	return cs
+}
+
+func perm(r *Rng, n int) []int {
+	p := make([]int, n)
+	for i := range p {
+		p[i] = i
+	}
+	for i := n - 1; i > 0; i-- {
+		j := r.Intn(i + 1)
+		p[i], p[j] = p[j], p[i]
+	}
+	return p
 }
 
 func openers() []c15Case {
@@ -592,6 +633,15 @@ func openers() []c15Case {
 			{T: "admin", Sender: 0, Denom: D, NewAdmin: "@0"}, {T: "meta", Sender: 0, Denom: D},
 			{T: "mint", Sender: 1, Denom: D, Amt: 7}, {T: "burn", Sender: 1, Denom: D, Amt: 30, Target: "@2"},
 			{T: "burn", Sender: 1, Denom: D, Amt: 30, Target: "@2"}, {T: "meta", Sender: 1, Denom: D}}},
+		// hand-over chains back to the creator: the creator is the admin again, the intermediate ones are not
+		{Genesis: []c15Gen{}, Ops: []c15Op{
+			{T: "create", Sender: 0, Sub: "gold"}, {T: "mint", Sender: 0, Denom: D, Amt: 100, Target: "@2"},
+			{T: "admin", Sender: 0, Denom: D, NewAdmin: "@1"}, {T: "admin", Sender: 1, Denom: D, NewAdmin: "@0"},
+			{T: "mint", Sender: 1, Denom: D, Amt: 5}, {T: "burn", Sender: 1, Denom: D, Amt: 5, Target: "@2"},
+			{T: "admin", Sender: 1, Denom: D, NewAdmin: "@3"}, {T: "mint", Sender: 0, Denom: D, Amt: 5},
+			{T: "admin", Sender: 0, Denom: D, NewAdmin: "@1"}, {T: "admin", Sender: 1, Denom: D, NewAdmin: "@2"},
+			{T: "admin", Sender: 2, Denom: D, NewAdmin: "@0"}, {T: "mint", Sender: 2, Denom: D, Amt: 5},
+			{T: "mint", Sender: 1, Denom: D, Amt: 5}, {T: "burn", Sender: 0, Denom: D, Amt: 5, Target: "@2"}}},
 		// same subdenom under another creator; duplicate creation; malformed subdenoms
 		{Genesis: []c15Gen{}, Ops: []c15Op{
 			{T: "create", Sender: 0, Sub: "gold"}, {T: "create", Sender: 1, Sub: "gold"}, {T: "create", Sender: 0, Sub: "gold"},
